@@ -41,6 +41,9 @@ pub struct Scenario {
     pub seed: Seed,
     pub serde: bool,
     pub adds: Vec<Add>,
+    /// call `with_timeout(far future)` on the provider after this many additions
+    #[serde(default)]
+    pub timeout_after: Option<usize>,
 }
 
 fn viol(sig: &str, what: String, case: &Case, sc: &Scenario, order: (usize, u64, u32)) -> Violation {
@@ -194,8 +197,16 @@ pub fn check_scenario(case: &Case, sc: &Scenario, order: (usize, u64, u32), acc:
         }
     }
     // additions
+    let far = std::time::SystemTime::now() + std::time::Duration::from_secs(3600);
     let mut added: Vec<(VersionSetId, Add)> = vec![];
-    for a in &sc.adds {
+    if sc.timeout_after == Some(0) {
+        prov = prov.with_timeout(far);
+    }
+    for (ai, a) in sc.adds.iter().enumerate() {
+        if ai > 0 && sc.timeout_after == Some(ai) {
+            // configuring a timeout must not forget the version sets added so far
+            prov = prov.with_timeout(far);
+        }
         if snap.packages.get(NameId(a.name)).is_none() {
             acc.count("adds_skipped_package_not_captured");
             continue;
@@ -249,6 +260,16 @@ pub fn check_scenario(case: &Case, sc: &Scenario, order: (usize, u64, u32), acc:
             }
         }
     }
+    if sc.timeout_after == Some(sc.adds.len()) && !sc.adds.is_empty() {
+        prov = prov.with_timeout(far);
+        match observe(&prov) {
+            Ok(after) if after == before => {}
+            _ => {
+                acc.violation(viol("captured-vset-shadowed", "after with_timeout captured version sets read differently or panic".into(), case, sc, order));
+                return;
+            }
+        }
+    }
     // problems to solve through the snapshot
     struct Prob {
         what: String,
@@ -298,10 +319,19 @@ pub fn check_scenario(case: &Case, sc: &Scenario, order: (usize, u64, u32), acc:
         // a fresh provider with the same additions (Solver::new consumes the provider)
         let mut p2 = snap.provider();
         let mut ok = true;
-        for (_, a) in &added {
+        if sc.timeout_after == Some(0) {
+            p2 = p2.with_timeout(far);
+        }
+        for (ai, (_, a)) in added.iter().enumerate() {
+            if ai > 0 && sc.timeout_after == Some(ai) {
+                p2 = p2.with_timeout(far);
+            }
             if std::panic::catch_unwind(std::panic::AssertUnwindSafe(|| p2.add_package_requirement(NameId(a.name), &a.matcher))).is_err() {
                 ok = false;
             }
+        }
+        if sc.timeout_after == Some(added.len()) && !added.is_empty() {
+            p2 = p2.with_timeout(far);
         }
         if !ok {
             continue;
@@ -421,7 +451,14 @@ pub fn scenarios(case: &Case, q: bool) -> Vec<Scenario> {
     for s in &seeds {
         for serde in [false, true] {
             for h in &hist {
-                out.push(Scenario { seed: s.clone(), serde, adds: h.clone() });
+                out.push(Scenario { seed: s.clone(), serde, adds: h.clone(), timeout_after: None });
+                // with_timeout at every position of the history (only for the direct snapshot: the
+                // serde axis is independent of it)
+                if !serde && !h.is_empty() {
+                    for pos in 0..=h.len() {
+                        out.push(Scenario { seed: s.clone(), serde, adds: h.clone(), timeout_after: Some(pos) });
+                    }
+                }
             }
         }
     }
